@@ -38,6 +38,15 @@ def gen_inputs(ctx):
     for i in range(6 if ctx.quick() else 60):
         lines, ids = pdbgen.multichain(rnd, nchains=rnd.randint(1, 2))
         out.append(("gen%d" % i, pdbgen.text(lines)))
+    # a disulfide bridge (non-titrating cysteines stay out of every charge curve) and same-label twin residues
+    out.append(("ss-bridge", pdbgen.text(pdbgen.ss_fragment())))
+    for i in range(2 if ctx.quick() else 20):
+        for _ in range(20):
+            lines, ids = pdbgen.multichain(rnd, nchains=1)
+            tw = pdbgen.same_type_twins(rnd, lines)
+            if tw is not None:
+                out.append(("twins%d" % i, pdbgen.text(tw)))
+                break
     # no titratable group at all: a lone glycine backbone without termini tags cannot be built from ATOMs; use a water-free HETATM carbon
     out.append(("none", "HETATM    1  C1  LIG A   1       0.000   0.000   0.000  1.00  0.00           C\nHETATM    2  C2  LIG A   1       1.500   0.000   0.000  1.00  0.00           C\n"))
     return out
